@@ -7,6 +7,10 @@ CLAIMED = {
     text='Bounded symbolic model checking of the real code: <Rational as FromStr>::from_str and Lexer::next are executed from the MIR of /repo\'s current tree over ALL ASCII strings up to the stated length (bytes are solver variables, byte classes split by feasibility queries); every accepted grammar literal\'s value is proved (z3 unsat) equal to an independent literal semantics with an unbounded exponent; solver models are replayed against the native dev and release builds before a violation is reported.',
     note='Trusted: rustc\'s MIR dump, the mirsym executor and its library models (num BigInt/Ratio as Int/Real, str/iterator/Option plumbing), z3. Outside the claim: literals longer than the bound, num-bigint itself.',
     design='§5 C07', technique='symbolic execution of rustc MIR + z3 (bounded, per-path obligations), replay on native build'),
+ 'C10': dict(
+    text='Bounded symbolic model checking of the real code: eval::builtin name lookup and builtin::{floor,ceil,round} (with Rational::{floor,ceil,round}) are executed from BOTH the dev and the release MIR of /repo on an unbounded symbolic rational (integer part unbounded, fraction symbolic), every digits argument in the bound as its own job, every argument count 0..3; the result is proved equal (z3 unsat of the negation) to the mathematical definition stated without floor functions; panics (debug assertions) are reachable-panic queries; models are replayed on the native dev and release builds.',
+    note='Trusted: MIR dump, mirsym + models (num Ratio::{floor,ceil,round,trunc} as exact integer-part arithmetic on a k+f decomposition, Vec/Option plumbing), z3. Outside: |digits| beyond the bound, sin/cos.',
+    design='§5 C10', technique='symbolic execution of rustc MIR (dev+release) + z3 linear real/integer arithmetic, replay on native builds'),
 }
 NOT_YET = {}
 NA = {
